@@ -148,14 +148,14 @@ def gen_tree(rng, override=False):
             r = rng.random()
             if r < 0.2:
                 own.append(ref_f(('ref', rng.choice(hier_roots))))               # recursive / cross-hierarchy member
-            elif r < 0.3:
+            elif r < 0.4:
                 own.append(ref_f(('arr', ('ref', rng.choice(hier_roots)))))
             anc = U.flat_fields({'classes': classes}, p)
             if override and own and anc and rng.random() < 0.6:
                 # redeclare a member of an ancestor (the odict override rule)
                 g = rng.choice(anc)
                 own[rng.randrange(len(own))] = dict(prim_f(g['name']))
-            far = len(nss) > 1 and rng.random() < 0.15
+            far = len(nss) > 1 and rng.random() < 0.25    # a subclass placed in another namespace; its own subclasses come back
             sns = rng.choice([n for n in nss if n != ns]) if far else ns
             cid = add('S%d_%d' % (h, s), sns, p, own, far=far)
             members.append(cid)
@@ -200,6 +200,8 @@ def gen_tree(rng, override=False):
         cout = add('m%dResponse' % i, tns, None, [res], msg=True)
         methods.append({'name': 'm%d' % i, 'ty': ty, 'min': mn, 'nillable': nil, 'in': cin, 'out': cout,
                         'plain': mn == 0 and nil and rng.random() < 0.5})
+    if any(c.get('far') for c in classes):
+        ORACLE['programs_with_cross_namespace_inheritance'] = ORACLE.get('programs_with_cross_namespace_inheritance', 0) + 1
     return {'tns': tns, 'classes': classes, 'n_user': n_user, 'methods': methods}
 
 
@@ -403,7 +405,7 @@ def g_py(desc):
     return glist(rows)
 
 
-def g_prelude(desc, prefmap, extra=''):
+def g_prelude(desc, prefmap, extra='', unres=()):
     """definitions shared by the case files of one program: the universe, the roots of
     populate_interface, the prefix table the interface ended up with, the model's registry"""
     roots = []
@@ -420,7 +422,8 @@ def g_prelude(desc, prefmap, extra=''):
           '| (k, v) :: r => if text_eqb k ns then v else go r end) PMAP.\n')
     s += ('Definition REG : registry := Eval vm_compute in (match populate shape_src UU TNS %d ROOTS with '
           'Some r => r | None => [] end).\n' % (6 * len(desc['classes']) + 30))
-    s += 'Definition CF (soft poly : bool) : pcfg := mkpcfg soft TNS poly true PM REG.\n'
+    s += 'Definition UNRES : list (text * text) := %s.\n' % glist(['(%s, %s)' % (gtext(a), gtext(n)) for a, n in sorted(unres)])
+    s += 'Definition CF (soft poly : bool) : pcfg := mkpcfg soft TNS poly true PM REG UNRES.\n'
     return s + extra
 
 
@@ -1555,18 +1558,36 @@ def probe_empty_root(check):
 
 
 # ------------------------------------------------------------------ run
+def unresolved_arrays(app):
+    """(namespace, member name) of the Array-typed members whose Array class was never given a namespace
+    (no resolve_namespace call reached the declaring class): an input of the model, see p_unres"""
+    from spyne.model.complex import Array
+    out = set()
+    for cls in app._c16_classes:
+        for k, v in cls._type_info.items():
+            if isinstance(v, type) and issubclass(v, Array) and v.get_namespace() is None:
+                out.add((cls.get_namespace(), k))
+    return out
+
+
 def prelude_factory(desc):
     def f(*apps):
         # prefixes are allocated lazily by the application that writes a marker; the applications
         # of one program that allocate at all must agree
         pm = {}
+        unres = set()
         for a in apps:
             if a is None:
                 continue
             for k, v in a.interface.prefmap.items():
                 if pm.setdefault(k, v) != v:
                     raise RuntimeError('applications of one program disagree on the prefix of %r' % k)
-        return g_prelude(desc, pm)
+            unres |= unresolved_arrays(a)
+        if unres:
+            ORACLE['preludes_with_unresolved_array_classes'] = ORACLE.get('preludes_with_unresolved_array_classes', 0) + 1
+        if os.environ.get('C16_NO_UNRES'):      # development switch: show what the model says without the input
+            unres = set()
+        return g_prelude(desc, pm, unres=unres)
     return f
 
 
